@@ -69,11 +69,20 @@ NpmMixed == {<<<<Cm(">=", P(<<0, 1, 1>>)), Cm("<", P(<<1>>))>>, <<Cm("~>", P(<<2
              <<<<[op |-> "-", p |-> P(<<1>>), q |-> P(<<1, 2>>)]>>, <<Cm("", PP(<<1, 2, 3>>, <<IdStr(1)>>))>>, <<[op |-> "-", p |-> P(<<2>>), q |-> P(<<3>>)]>>>>,
              <<<<Cm(">=", P(<<0>>))>>, <<Cm("<=", PP(<<1, 0, 0>>, <<IdStr(3)>>))>>>>,
              <<<<Cm("^", P(<<1, 2>>)), Cm("<", P(<<1, 3>>)), Cm(">", P(<<1, 2, 0>>))>>>>}
-NpmCat == NpmSingles \cup NpmAnds \cup NpmOrs \cup NpmHyphens \cup NpmMixed
+\* intervals with every combination of open / closed ends (nested and abutting ones, same upper bound closed in
+\* one and open in the other, an open prerelease lower bound so that spans open at both ends occur)
+NpmLowers == {Cm(">=", P(<<1, 0, 0>>)), Cm(">=", P(<<1, 5, 0>>)), Cm(">", P(<<1, 0, 0>>)), Cm(">", PP(<<1, 2, 3>>, <<IdStr(1)>>))}
+NpmUppers == {Cm("<", P(<<2, 0, 0>>)), Cm("<=", P(<<2, 0, 0>>)), Cm("<=", P(<<1, 2, 3>>)), Cm("<", P(<<1, 2, 3>>))}
+NpmIntervals == {<<lo, hi>> : lo \in NpmLowers, hi \in NpmUppers}
+NpmIntervalOrs == {<<a, b>> : a \in NpmIntervals, b \in NpmIntervals}
+                  \cup {<<<<[op |-> "-", p |-> P(<<1, 0, 0>>), q |-> P(<<2, 0, 0>>)]>>, a>> : a \in NpmIntervals}
+NpmCat == NpmSingles \cup NpmAnds \cup NpmOrs \cup NpmHyphens \cup NpmMixed \cup {<<a>> : a \in NpmIntervals} \cup NpmIntervalOrs
 \* pair set for C09 / C11 (union / intersection of every ordered pair is observed)
 NpmPairSet == {<<<<c>>>> : c \in NpmCoreQuick} \cup NpmMixed
               \cup {<<<<Cm(">", P(<<2, 0, 0>>))>>>>, <<<<Cm(">=", P(<<1, 0, 0>>)), Cm("<", P(<<2, 0, 0>>))>>>>, <<<<Cm("", P(<<1, 2, 0>>))>>, <<Cm("", P(<<1, 2, 3>>))>>>>,
                     <<<<Cm("", P0)>>>>, <<<<Cm(">=", P(<<2, 0, 0>>)), Cm("<", P(<<3, 0, 0>>))>>>>, <<<<Cm(">=", P(<<1, 2, 0>>)), Cm("<", P(<<2, 0, 0>>))>>>>}
+              \cup {<<a>> : a \in NpmIntervals} \cup {<<<<[op |-> "-", p |-> P(<<1, 0, 0>>), q |-> P(<<2, 0, 0>>)]>>>>}
+              \cup (IF Tier = "quick" THEN {} ELSE {<<a, b>> : a \in {x \in NpmIntervals : x[1].op = ">="}, b \in {x \in NpmIntervals : x[2].op = "<"}})
 
 CargoOps == {"", "=", ">", ">=", "<", "<=", "~", "^"}
 CargoParts == {P(<<0>>), P(<<1>>), P(<<2>>), P(<<0, 0>>), P(<<0, 1>>), P(<<1, 0>>), P(<<1, 2>>), P(<<0, 0, 0>>), P(<<0, 0, 1>>), P(<<0, 1, 2>>),
@@ -84,8 +93,9 @@ CargoCore == {Cm(">=", P(<<1, 0, 0>>)), Cm("<", P(<<2, 0, 0>>)), Cm("<", P(<<1>>
               Cm("~", P(<<1, 2, 3>>)), Cm("", P(<<1, 2, 3>>)), Cm("=", P(<<1, 2, 3>>)), Cm(">=", PP(<<1, 2, 3>>, <<IdStr(1)>>)), Cm("", P(<<0, 1, 0>>)),
               Cm("<", P(<<1, 2>>)), Cm("=", P(<<1, 2>>)), Cm("<", P(<<0, 2>>)), Cm("^", P(<<0, 2>>)), Cm("<", PP(<<1, 2, 3>>, <<IdStr(3)>>))}
 CargoAnds == {<<a, b>> : a \in CargoCore, b \in CargoCore} \cup {<<Cm(">=", P(<<1, 0, 0>>)), Cm("<", P(<<2, 0, 0>>)), Cm("<", P(<<1, 5>>))>>}
-CargoCat == CargoSingles \cup CargoAnds
-CargoPairSet == {<<c>> : c \in CargoCore} \cup {<<Cm(">=", P(<<1, 0, 0>>)), Cm("<", P(<<2, 0, 0>>))>>, <<Cm(">=", P(<<2, 0, 0>>)), Cm("<", P(<<3, 0, 0>>))>>, <<Cm(">", P(<<2, 0, 0>>))>>}
+CargoIntervals == {<<lo, hi>> : lo \in NpmLowers, hi \in NpmUppers}
+CargoCat == CargoSingles \cup CargoAnds \cup CargoIntervals
+CargoPairSet == CargoIntervals \cup {<<c>> : c \in CargoCore} \cup {<<Cm(">=", P(<<1, 0, 0>>)), Cm("<", P(<<2, 0, 0>>))>>, <<Cm(">=", P(<<2, 0, 0>>)), Cm("<", P(<<3, 0, 0>>))>>, <<Cm(">", P(<<2, 0, 0>>))>>}
 
 PyV(rel) == [rel |-> rel, star |-> FALSE, pre |-> <<>>, post |-> -1, dev |-> -1]
 PyVersions == {PyV(<<1>>), PyV(<<1, 0>>), PyV(<<1, 2>>), PyV(<<1, 2, 3>>), PyV(<<2, 0>>), PyV(<<0, 1>>), PyV(<<1, 0, 0>>), PyV(<<1, 2, 0>>), PyV(<<2>>), PyV(<<3, 3, 3>>),
@@ -113,9 +123,10 @@ MvnCat == {[soft |-> TRUE, v |-> i, rs |-> <<>>] : i \in {3, 6, 10}}
 MvnCatV == {q \in MvnCat : Len(q.rs) < 2 \/ MvnValidU(q.rs[1], q.rs[2])}
 
 \* systems without a reference (C09 / C11 only): plain texts
-GoTexts == {"v1.0.0", "v1.2.3", "v0.2.4", "v2.0.0", "v1.2.3-alpha", "v0.0.0", "v3.1.0", "v1.0.0-rc", "v2.0.0-0", "v0.1.0-alpha.1"}
+GoTexts == {"v1.0.0", "v1.2.3", "v0.2.4", "v2.0.0", "v1.2.3-alpha", "v0.0.0", "v3.1.0", "v1.0.0-rc", "v2.0.0-0", "v0.1.0-alpha.1", "v2.0.0-alpha", "v1.0.0-alpha", "v3.0.0-rc"}
 NuGetTexts == {"1.0.0", "[1.0.0]", "[1.0.0,2.0.0)", "(1.0.0,2.0.0]", "[1.2.3,)", "(,2.0.0]", "(,2.0.0)", "1.*", "1.2.*", "[1.0.0-alpha,2.0.0)", "[1.0,2.0]", "*",
-               "1.2.3-alpha", "[2.0.0,3.0.0)", "(1.2.3,)", "[0.0.0,1.0.0)"}
+               "1.2.3-alpha", "[2.0.0,3.0.0)", "(1.2.3,)", "[0.0.0,1.0.0)", "(1.0.0,2.0.0)", "(1.0,2.0)", "1.2.3.*", "1.*-*", "[1.0.0-alpha,1.0.0-rc]",
+               "(1.0.0-alpha,2.0.0)", "1.2.3.4", "[1.2.3.4,2.0.0.0)", "(,1.0.0-rc)"}
 
 Cat == TLCEval(SetToSeq(
   CASE SysName = "NPM" -> {[text |-> NpmText(r), ref |-> TRUE, pair |-> (r \in NpmPairSet), ast |-> r] : r \in NpmCat}
